@@ -53,7 +53,11 @@ type cliEnv struct {
 	sin     int  // how standard input is handed over: 0 a pipe, 1 a regular file, 2 a regular file whose first line the caller has already consumed
 	stale   bool // -o names a file that already exists and is longer than the output
 	inPlace bool // with sin == 1 and an output file: -o names the very file standard input is redirected from
+	piped   bool // secondary input files (pool files named in the arguments) are handed over as pipes (/dev/fd/N), as a shell's process substitution does
 }
+
+// withPiped returns the environment in which secondary input files arrive through pipes.
+func (e cliEnv) withPiped(on bool) cliEnv { e.piped = on; return e }
 
 // withInPlace returns the environment in which -o names the file standard input comes from.
 func (e cliEnv) withInPlace(on bool) cliEnv { e.inPlace = on; return e }
@@ -116,6 +120,25 @@ func (e cliEnv) run(args []string, stdin []byte, outfile bool, exts ...string) c
 		cmd.Env = append(cmd.Env, "GOCOVERDIR="+d) // coverage of a cover-built gts binary (development aid, not used by the checks)
 	}
 	cmd.Dir = e.dir
+	if e.piped {
+		for i, a := range cmd.Args {
+			if i == 0 || !strings.HasPrefix(a, poolDir+string(os.PathSeparator)) {
+				continue
+			}
+			data, err := os.ReadFile(a)
+			if err != nil {
+				continue
+			}
+			r, w, err := os.Pipe()
+			if err != nil {
+				panic(err)
+			}
+			cmd.ExtraFiles = append(cmd.ExtraFiles, r)
+			cmd.Args[i] = fmt.Sprintf("/dev/fd/%d", 2+len(cmd.ExtraFiles))
+			go func() { w.Write(data); w.Close() }()
+			defer r.Close()
+		}
+	}
 	cmd.Stdin = bytes.NewReader(stdin)
 	if e.sin > 0 {
 		prefix := ""
